@@ -603,6 +603,33 @@ def check_flags(ctx, R="C13.flags"):
         else:
             ctx.finding(R, c, f"visit_TryInterrupt emits raw {dotted(c.func)}", f"visit_TryInterrupt emits `{norm_text(c, 60)}` into the enclosing context without self.visit: when the statement is nested in a block of another try-interrupt, the `{dotted(c.func).split('.')[-1].lower()}` is executed inside that block's function ('break outside loop' / a return that only leaves the block)")
     ctx.floor(R, n_cf, 3, "control-flow statements emitted by visit_TryInterrupt")
+    # (d) first-use latches: `if not self.X: self.Y = node` records the first break / continue of the statement; X must be Y
+    n_latch = 0
+    for mname, fn in ci.methods.items():
+        for st in walk_local(fn):
+            if not (isinstance(st, ast.If) and not st.orelse and len(st.body) == 1 and isinstance(st.body[0], ast.Assign)):
+                continue
+            t = st.test
+            if not (isinstance(t, ast.UnaryOp) and isinstance(t.op, ast.Not) and isinstance(t.operand, ast.Attribute) and isinstance(t.operand.value, ast.Name) and t.operand.value.id == "self"):
+                continue
+            tg = st.body[0].targets
+            if not (len(tg) == 1 and isinstance(tg[0], ast.Attribute) and isinstance(tg[0].value, ast.Name) and tg[0].value.id == "self"):
+                continue
+            if not (tg[0].attr.startswith("used") or t.operand.attr.startswith("used")):
+                continue
+            n_latch += 1
+            if tg[0].attr != t.operand.attr:
+                ctx.finding(
+                    R,
+                    st,
+                    f"{mname} latch tests {t.operand.attr} but sets {tg[0].attr}",
+                    f"{mname}: `if not self.{t.operand.attr}: self.{tg[0].attr} = ...` -- the latch that records the first use of the statement tests another flag than the one it sets: "
+                    f"once self.{t.operand.attr} is set (e.g. a `break` earlier in the same interrupt block) self.{tg[0].attr} is never recorded, so the enclosing try-interrupt emits no "
+                    f"`if ... is {tg[0].attr[4:].lower()}Flag` and the statement silently does nothing",
+                )
+            else:
+                ctx.ok(R, st, f"{mname}: latch on self.{tg[0].attr}")
+    ctx.floor(R, n_latch, 2, "first-use latches (usedBreak / usedContinue)")
 
 
 def check(ctx):
